@@ -100,9 +100,21 @@ func loadKnownFindings() []*KnownFinding {
 var solverSem = make(chan struct{}, runtime.NumCPU())
 
 // runJobs translates every job and discharges all obligations (kept by keep).
-func (c *CheckCtx) runJobs(jobs []*Job, keep func(o *Obligation) bool) {
+func (c *CheckCtx) runJobs(jobs []*Job, keepProp func(o *Obligation) bool) {
+	// whatever a VC assumes must be checked in the same run: user loop invariants (assumed at
+	// the loop head) and callee preconditions (the callee's ensures are assumed after the
+	// call) are always kept, whatever the property's own selection
+	keep := func(o *Obligation) bool {
+		if o.Kind == "inv-init" || o.Kind == "inv-step" || o.Kind == "pre" {
+			return true
+		}
+		return keepProp == nil || keepProp(o)
+	}
 	var trs []*Tr
 	for _, j := range jobs {
+		if j.Prop == "" {
+			j.Prop = c.prop.ID
+		}
 		tr := c.translateSafe(j)
 		if tr == nil {
 			continue
@@ -375,7 +387,7 @@ func cmdCheck(args []string) int {
 	}
 	scratch := scratchDir()
 	defer os.RemoveAll(scratch)
-	cfg := &SolverCfg{TimeoutMs: 10000, Scratch: scratch, Seed: seed}
+	cfg := &SolverCfg{TimeoutMs: 20000, Scratch: scratch, Seed: seed}
 	if *tier == "thorough" {
 		cfg.TimeoutMs = 60000
 		cfg.Race = true
